@@ -475,6 +475,234 @@ def sync_twice(cfg, seq):
     return None
 
 
+# --------------------------------------------------------------------------------------------- corners of the quantified space
+def corner_systems():
+    """name -> function(sim) adding the particles; degenerate sizes, masses, orbits, magnitudes"""
+    def n0(sim): pass
+    def n1(sim): sim.add(m=1.0)
+    def n2(sim): sim.add(m=1.0); sim.add(m=1e-3, a=1.0, e=0.0)
+    def massless(sim): sim.add(m=1.0); sim.add(m=0.0, a=1.0, e=0.1); sim.add(m=0.0, a=1.7, e=0.0, f=2.0)
+    def allzero(sim): sim.add(m=0.0); sim.add(m=0.0, x=1.0, vy=1.0); sim.add(m=0.0, x=-2.0, vy=-0.5)
+    def retro(sim): sim.add(m=1.0); sim.add(m=1e-3, a=1.0, e=0.0, inc=math.pi); sim.add(m=1e-4, a=1.8, e=0.0, inc=0.0)
+    def ehigh(sim): sim.add(m=1.0); sim.add(m=1e-3, a=1.0, e=0.999); sim.add(m=1e-4, a=3.0, e=0.0)
+    def hyper(sim): sim.add(m=1.0); sim.add(m=1e-3, a=-1.0, e=1.5, f=-1.0); sim.add(m=1e-4, a=3.0, e=0.0)
+    def coincident(sim): sim.add(m=1.0); sim.add(m=1e-3, x=1.0, vy=1.0); sim.add(m=1e-3, x=1.0, vy=1.0)
+    def huge(sim): sim.add(m=1e150); sim.add(m=1e147, x=1e100, vy=1e25); sim.add(m=1e146, x=-2e100, vy=-0.7e25)
+    def tiny(sim): sim.add(m=1e-290); sim.add(m=1e-293, x=1e-100, vy=1e-95); sim.add(m=1e-294, x=-2e-100, vy=-0.7e-95)
+    def nanpos(sim): sim.add(m=1.0); sim.add(m=1e-3, a=1.0); sim.add(m=1e-3, x=2.0, vy=1.0); sim.particles[2].x = float("nan")
+    def infvel(sim): sim.add(m=1.0); sim.add(m=1e-3, a=1.0); sim.add(m=1e-3, x=2.0, vy=1.0); sim.particles[2].vy = float("inf")
+    def negzero(sim): sim.add(m=1.0, x=-0.0, y=-0.0, vz=-0.0); sim.add(m=1e-3, x=1.0, y=-0.0, vy=1.0, vz=-0.0)
+    def t0big(sim): n2(sim); sim.add(m=1e-4, a=2.0, e=0.3); sim.t = 1e9
+    def t0neg(sim): n2(sim); sim.t = -0.0
+    return {"N0": n0, "N1": n1, "N2": n2, "massless": massless, "allzero": allzero, "retrograde_e0": retro, "e0.999": ehigh,
+            "hyperbolic": hyper, "coincident": coincident, "huge": huge, "tiny": tiny, "nan_position": nanpos, "inf_velocity": infvel,
+            "negative_zero": negzero, "t=1e9": t0big, "t=-0.0": t0neg}
+
+
+WELL_CONDITIONED = {"N1", "N2", "massless", "retrograde_e0", "negative_zero", "t=1e9", "t=-0.0"}
+CORNER_DTS = [0.05, -0.05, 0.0, -0.0, 5e-324, 1e-300, 1e300, float("nan"), float("inf")]
+CORNER_INTEGS = [{"integ": "whfast"}, {"integ": "whfast", "coordinates": 1}, {"integ": "whfast", "coordinates": 2}, {"integ": "whfast", "coordinates": 3},
+                 {"integ": "whfast", "corrector": 17, "kernel": 2}, {"integ": "whfast", "kernel": 3, "corrector": 3}, {"integ": "whfast", "var": 1},
+                 {"integ": "saba", "type": 0x6}, {"integ": "saba", "type": 0x102}, {"integ": "saba", "type": 0x200},
+                 {"integ": "mercurius"}, {"integ": "eos", "phi0": 0}, {"integ": "eos", "phi0": 7, "phi1": 1, "n": 1}]
+
+
+def corner_make(cfg):
+    sim = rebound.Simulation()
+    corner_systems()[cfg["system"]](sim)
+    integ = cfg["integ"]
+    sim.integrator = integ
+    sim.dt = cfg["dt"]
+    if integ == "whfast":
+        w = sim.ri_whfast
+        w.kernel = cfg.get("kernel", 0); w.coordinates = cfg.get("coordinates", 0); w.corrector = cfg.get("corrector", 0)
+        w.safe_mode = cfg["safe"]; w.keep_unsynchronized = cfg["keep"]
+        if cfg.get("var") and sim.N > 0:
+            v = sim.add_variation(); v.particles[0].x = 1.0
+            if cfg.get("var") == 2:
+                v2 = sim.add_variation(); v2.particles[sim.N_real - 1].vy = 1.0
+    elif integ == "saba":
+        sim.ri_saba.type = cfg.get("type", 0); sim.ri_saba.safe_mode = cfg["safe"]; sim.ri_saba.keep_unsynchronized = cfg["keep"]
+    elif integ == "mercurius":
+        sim.ri_mercurius.safe_mode = cfg["safe"]
+    elif integ == "eos":
+        sim.ri_eos.phi0 = cfg.get("phi0", 0); sim.ri_eos.phi1 = cfg.get("phi1", 0); sim.ri_eos.n = cfg.get("n", 2); sim.ri_eos.safe_mode = cfg["safe"]
+    return sim
+
+
+def corner_run(cfg, seq):
+    """returns ('ok', state) or ('raise', exception type name)"""
+    sim = corner_make(cfg)
+    try:
+        for k, op in enumerate(seq):
+            apply(sim, op, cfg, k)
+        pre_cache = cache(sim, cfg["integ"]); pre_flags = flags(sim, cfg["integ"])
+        sim.synchronize()
+        p1 = pstate(sim); c1 = cache(sim, cfg["integ"]); f1 = flags(sim, cfg["integ"])
+        sim.synchronize()
+        p2 = pstate(sim); c2 = cache(sim, cfg["integ"]); f2 = flags(sim, cfg["integ"])
+    except (RuntimeError, rebound.simulation.NoParticles if hasattr(rebound.simulation, "NoParticles") else RuntimeError, ValueError) as e:
+        return ("raise", type(e).__name__ + ":" + str(e)[:60])
+    return ("ok", {"p": p1, "t": sim.t, "cache": pre_cache, "flags": pre_flags, "twice": same(p1, p2) and same(c1, c2) and f1 == f2})
+
+
+CORNER_SEQ = [("step", 2), ("sync",), ("save",), ("copy",), ("step", 1), ("energy",), ("get",), ("sync",), ("step", 2)]
+
+
+def corner_case(cfg):
+    """all corner checks for one configuration; returns a failure text or None"""
+    keepable = cfg["integ"] in ("whfast", "saba")
+    # (iii) synchronize twice == once; (i) transparency under keep_unsynchronized
+    for keep in ((0, 1) if keepable else (0,)):
+        a = corner_run(dict(cfg, safe=0, keep=keep), CORNER_SEQ)
+        if a[0] == "ok" and not a[1]["twice"]: return "synchronize twice differs from synchronize once (keep_unsynchronized=%d)" % keep
+        if keep == 1:
+            b_ = corner_run(dict(cfg, safe=0, keep=1), strip(CORNER_SEQ))
+            if a[0] != b_[0]: return "inserted calls change the outcome: %r versus %r" % (a[0:1] + a[1:2] if a[0] == "raise" else a[0], b_[0:1] + b_[1:2] if b_[0] == "raise" else b_[0])
+            if a[0] == "ok":
+                if not same(a[1]["cache"], b_[1]["cache"]): return "keep_unsynchronized: cached coordinates differ after inserted calls"
+                if a[1]["flags"] != b_[1]["flags"]: return "keep_unsynchronized: flags differ after inserted calls"
+                if not same(a[1]["p"], b_[1]["p"]) or bits(a[1]["t"]) != bits(b_[1]["t"]): return "keep_unsynchronized: final state differs bitwise after inserted calls"
+    # (ii) safe mode versus deferred synchronisation
+    s_ = corner_run(dict(cfg, safe=1, keep=0), [("step", 5)])
+    for keep in ((0, 1) if keepable else (0,)):
+        u = corner_run(dict(cfg, safe=0, keep=keep), [("step", 5)])
+        if s_[0] != u[0]: return "safe mode %s but deferred synchronisation (keep_unsynchronized=%d) %s" % (s_[0:2] if s_[0] == "raise" else "runs", keep, u[0:2] if u[0] == "raise" else "runs")
+        if s_[0] == "raise":
+            if s_[1] != u[1]: return "different errors: safe %r, deferred %r" % (s_[1], u[1])
+            continue
+        if bits(s_[1]["t"]) != bits(u[1]["t"]) and not (s_[1]["t"] != s_[1]["t"] and u[1]["t"] != u[1]["t"]): return "time differs: %r vs %r" % (s_[1]["t"], u[1]["t"])
+        fa = all(math.isfinite(x) for x in s_[1]["p"]); fb = all(math.isfinite(x) for x in u[1]["p"])
+        if fa != fb and cfg["system"] in WELL_CONDITIONED and math.isfinite(cfg["dt"]) and abs(cfg["dt"]) < 1:
+            return "finite in one mode, not finite in the other"
+        if fa and fb and cfg["system"] in WELL_CONDITIONED and math.isfinite(cfg["dt"]) and abs(cfg["dt"]) < 1:
+            if cfg.get("var") and keep == 1 and False: continue
+            sc = scales(cfg, s_[1]["p"])
+            err = maxdiff(s_[1]["p"], u[1]["p"], sc)
+            tol = 2000 * EPS * 5 * 2.0 * (10 if cfg.get("corrector", 0) >= 11 else 1)
+            if cfg["integ"] == "eos": tol += 1e-3 * abs(cfg["dt"])
+            if err > tol: return "safe mode and deferred synchronisation (keep_unsynchronized=%d) differ by %.3g (tolerance %.3g)" % (keep, err, tol)
+    return None
+
+
+def drain(sim):
+    """one faulty step can queue the same error several times (init is called by part1 and by synchronize); the Python layer
+    raises the first and keeps the rest for the next call: empty the queue"""
+    for _ in range(20):
+        try:
+            sim.process_messages(); return
+        except RuntimeError:
+            continue
+
+
+def reuse_cases():
+    """the same object keeps being used after an error / warning path was taken once"""
+    out = []
+
+    def rejected_config_then_fixed(safe, keep):
+        sim = make({"integ": "whfast", "coordinates": 1, "corrector": 3, "dt": 0.05, "sysseed": 11, "nplanets": 2, "safe": safe, "keep": keep})
+        try: sim.step()
+        except RuntimeError: pass
+        drain(sim)
+        sim.ri_whfast.corrector = 0
+        sim.steps(6); sim.synchronize()
+        return pstate(sim)
+    out.append(("whfast: configuration rejected by init once, then corrected", rejected_config_then_fixed))
+
+    def keep_with_safe_once(safe, keep):
+        sim = make({"integ": "whfast", "dt": 0.05, "sysseed": 12, "nplanets": 2, "safe": 1, "keep": 0})
+        if not safe:
+            sim.ri_whfast.keep_unsynchronized = 1       # error path: keep_unsynchronized together with safe_mode
+            try: sim.step()
+            except RuntimeError: pass
+            drain(sim)
+            sim.ri_whfast.safe_mode = 0; sim.ri_whfast.keep_unsynchronized = keep
+            sim.steps(5)
+        else:
+            sim.steps(6)
+        sim.synchronize()
+        return pstate(sim)
+    out.append(("whfast: keep_unsynchronized with safe_mode reported once, then safe_mode switched off", keep_with_safe_once))
+
+    def no_particles_then_add(safe, keep):
+        sim = rebound.Simulation(); sim.integrator = "whfast"; sim.dt = 0.05
+        sim.ri_whfast.safe_mode = safe; sim.ri_whfast.keep_unsynchronized = keep
+        try: sim.integrate(1.0)
+        except Exception: pass
+        sim.synchronize()
+        t_after = sim.t
+        sim.add(m=1.0); sim.add(m=1e-3, a=1.0, e=0.1); sim.move_to_com()
+        sim.steps(6); sim.synchronize()
+        return pstate(sim) + [sim.t - t_after]
+    out.append(("whfast: used without particles (integrate reports it), particles added afterwards", no_particles_then_add))
+
+    def warned_recalc_then_on(safe, keep):
+        sim = make({"integ": "whfast", "dt": 0.05, "sysseed": 13, "nplanets": 3, "safe": safe, "keep": 0})
+        sim.steps(2)
+        if not safe: sim.ri_whfast.recalculate_coordinates_this_timestep = 1      # warning path (unsynchronized + recalculation)
+        sim.steps(2)
+        if not safe: sim.ri_whfast.recalculate_coordinates_this_timestep = 1      # second time: no warning any more, same handling required
+        sim.steps(2); sim.synchronize()
+        return pstate(sim)
+    out.append(("whfast: recalculation requested on an unsynchronized state twice (warning only the first time)", warned_recalc_then_on))
+
+    def saba_flags(safe, keep):
+        sim = make({"integ": "saba", "type": 0x102, "dt": 0.05, "sysseed": 14, "nplanets": 2, "safe": safe, "keep": keep})
+        sim.integrate(sim.t)                      # nothing to do: must not disturb anything
+        sim.steps(3); sim.integrate(sim.t); sim.steps(3); sim.synchronize()
+        return pstate(sim)
+    out.append(("saba: integrate() to the current time (zero steps) before and during the run", saba_flags))
+    return out
+
+
+def corners(out, only_system=None, only_integ=None):
+    import signal
+    rep = {"evaluations": 0, "keys": [], "fails": [], "stats": {}}
+    cur = out + ".cur"
+
+    def onalarm(sig, frm): raise TimeoutError("hang")
+    signal.signal(signal.SIGALRM, onalarm)
+    for sysname in corner_systems():
+        if only_system is not None and sysname != only_system: continue
+        for dt in CORNER_DTS:
+            for ci, c0 in enumerate(CORNER_INTEGS):
+                if only_integ is not None and ci != only_integ: continue
+                cfg = dict(c0, system=sysname, dt=dt)
+                json.dump({"cfg": cfg}, open(cur, "w"))
+                signal.alarm(30)
+                try:
+                    why = corner_case(cfg)
+                except TimeoutError:
+                    why = "hang (more than 30 s)"
+                except Exception as e:
+                    why = "exception in the harness: %r" % (e,)
+                signal.alarm(0)
+                rep["evaluations"] += 1; rep["keys"].append(str(("corner", sysname, repr(dt), label(dict(cfg, dt=0)))))
+                if why:
+                    rep["fails"].append({"key": "corner:%s:%s" % (cfg["integ"], why.split(":")[0][:60]), "why": "%s, dt=%r, %s: %s" % (sysname, dt, label(dict(c0, dt=0)), why),
+                                         "replay": {"check": "corner", "cfg": cfg}})
+    for name, f in (reuse_cases() if only_system == "REUSE" else []):
+        json.dump({"reuse": name}, open(cur, "w"))
+        signal.alarm(30)
+        try:
+            a = f(1, 0); why = None
+            for keep in (0, 1):
+                b_ = f(0, keep)
+                sc = [max(1e-3, abs(x)) for x in a]
+                err = max(abs(x - y) / s for x, y, s in zip(a, b_, sc)) if len(a) == len(b_) else float("inf")
+                if not (err <= 1e-11): why = "safe mode and deferred synchronisation (keep_unsynchronized=%d) differ by %.3g afterwards" % (keep, err)
+        except TimeoutError:
+            why = "hang"
+        except Exception as e:
+            why = "exception: %r" % (e,)
+        signal.alarm(0)
+        rep["evaluations"] += 1; rep["keys"].append(str(("reuse", name)))
+        if why:
+            rep["fails"].append({"key": "reuse-after-error:" + name.split(":")[0], "why": name + ": " + why, "replay": {"check": "reuse", "name": name}})
+    json.dump(rep, open(out, "w"), indent=1)
+    if os.path.exists(cur): os.remove(cur)
+
+
 def main():
     seed = int(sys.argv[1]); tier = sys.argv[2]; out = sys.argv[3]
     avx = len(sys.argv) > 4 and sys.argv[4] == "avx512"
@@ -661,13 +889,17 @@ def _safe(f, c, s):
 def replay(rep):
     """re-run one recorded failure; returns the failure text or None."""
     r = rep["replay"] if "replay" in rep and "check" not in rep else rep
-    cfg = r["cfg"]; ch = r["check"]
+    cfg = r.get("cfg"); ch = r["check"]
     seq = [tuple(o) for o in r.get("seq", [])]
     if ch == "transparent": return _safe(transparent, cfg, seq)
     if ch == "sync_twice": return _safe(sync_twice, cfg, seq)
     if ch == "safe_vs_unsafe":
         err, tol, note = safe_vs_unsafe(cfg, r["nsteps"], r["keep"])
         return None if err <= tol else "differs by %.3g (tolerance %.3g)" % (err, tol)
+    if ch == "corner":
+        return _safe(lambda c, _s: corner_case(c), cfg, None)
+    if ch == "reuse":
+        return "re-run ./check C09 (reuse scenarios are not parameterised)"
     if ch == "callback":
         err, tol = callback_check(cfg, r["nsteps"], r["which"])
         return None if err <= tol else "differs by %.3g (tolerance %.3g)" % (err, tol)
@@ -692,6 +924,8 @@ def replay(rep):
 
 
 if __name__ == "__main__":
+    if sys.argv[1] == "--corners":
+        corners(sys.argv[2], sys.argv[3] if len(sys.argv) > 3 else None, int(sys.argv[4]) if len(sys.argv) > 4 else None); sys.exit(0)
     if sys.argv[1] == "--replay":
         why = replay(json.load(open(sys.argv[2])))
         print("REPLAY:", why if why else "property holds on this input")
